@@ -61,7 +61,7 @@ def run(model: Model, rep: Report, tier: str) -> None:
         "source), nor termination."
     )
     rep.trusted_base = ["Tikka & Karvanen 2018 (soundness of TRSO)", "C04 separation oracle", "C14 graph primitives", "copy.deepcopy returns an independent object"]
-    rep.floors = {"R5.0": 2, "R5.1": 1, "R5.2": 2, "R5.3": 4, "R5.6": 8, "R6.2": 5 if model.has_func("y0.algorithm.transport._line_6_helper") else 4, "R6.3": 5, "R6.5": 2}
+    rep.floors = {"R5.0": 2, "R5.1": 1, "R5.2": 2, "R5.3": 5, "R5.6": 8, "R6.2": 5 if model.has_func("y0.algorithm.transport._line_6_helper") else 4, "R6.3": 5, "R6.5": 2}
     sa = SetAlg(rewrite=rewriter(graph_rewrite, _regular_rewrite))
     n = var("%n")
     r5_helpers(model, rep)
